@@ -65,4 +65,17 @@ CLAIMS["C01"] = {
             "represented by {0,+-1,+-2}, which realise every truth assignment of the cascade's atoms. No trace is replayed against the running implementation.",
 }
 
+CLAIMS["C17"] = {
+    "category": "other",
+    "technique": "path rules over Results/Problem query methods (filter equality, lock-step appends, sort-before-reorder typestate), decision table of find_optimum, reduction-structure rules for the indicators, numpy API existence query",
+    "text": "Decides the structural clauses behind the result views: tag filters use equality while iterating the record in order and the "
+            "default is the maximum tag; parallel lists are filled in lock-step from one individual on every path; a key list is sorted "
+            "in place only after its partner was reordered with the still-unsorted keys (typestate on every path of the three sorting "
+            "queries), and sort_list returns the partner components; find_optimum maps minimise/absent to min and anything else to max, "
+            "keyed by the named cost; gd reduces over the reference axis and averages over the computed set, epsilon_add is the "
+            "max-min-max nest from a zero start; and every numpy attribute used exists in the repository's numpy. These hold for all "
+            "recorded data sets because they are statements about the code paths, not about sample data. Indicator *values* are not decided.",
+    "note": "Trusts: sorted/zip/min/max builtins, scipy cdist orientation; one `hasattr(numpy, name)` query against /venv's numpy (inspects numpy, not artap).",
+}
+
 NOT_APPLICABLE = {}
